@@ -12,7 +12,7 @@ type Version struct {
 	Version string   `xml:"version,omitempty"`
 	OS      string   `xml:"os,omitempty"`
 	// Result sets
-	ResultSet *ResultSet `xml:"set,omitempty"`
+	ResultSet *ResultSet `xml:"http://jabber.org/protocol/rsm set,omitempty"`
 }
 
 func (v *Version) Namespace() string {
